@@ -59,10 +59,13 @@ type Scenario struct {
 	ReadMS  int           `json:"read_ms"`
 }
 
-var templates = []string{"options", "describe", "setup-udp", "setup-tcp", "play", "pause", "teardown", "getparam", "setparam",
+var templates = []string{"options", "describe", "setup-udp", "setup-tcp", "play", "pause", "teardown", "getparam", "setparam", "star",
 	"announce", "setup-rec-udp", "setup-rec-tcp", "record", "frame", "frame", "garbage", "http-get", "http-post", "ws-upgrade", "ws-frame", "b64", "response"}
 
 var playConv = []string{"options", "describe", "setup-tcp", "play", "frame", "getparam", "pause", "teardown"}
+
+// keep-alives and other requests on "*" inside a session
+var starConv = []string{"describe", "setup-tcp", "star", "play", "star", "star"}
 var playUDPConv = []string{"options", "describe", "setup-udp", "play", "getparam", "teardown"}
 var recConv = []string{"options", "announce", "setup-rec-tcp", "record", "frame", "frame", "teardown"}
 var recUDPConv = []string{"announce", "setup-rec-udp", "record", "getparam"}
@@ -92,7 +95,7 @@ func gen(seed uint64, tier string) Scenario {
 	sc.IdleMS = r.Pick(3000, 6000, 10000)
 	sc.ReadMS = r.Pick(2000, 4000, 10000)
 	nh := r.Range(1, 4)
-	convs := [][]string{playConv, playUDPConv, recConv, recUDPConv, httpConv, httpPostConv, wsConv, recUDP0Conv, recUDP0Conv}
+	convs := [][]string{playConv, playUDPConv, recConv, recUDPConv, httpConv, httpPostConv, wsConv, recUDP0Conv, recUDP0Conv, starConv}
 	for i := 0; i < nh; i++ {
 		h := Hostile{StartUS: r.Intn(300000)}
 		h.TLS = sc.Secure && r.Bool(0.7)
@@ -254,6 +257,15 @@ func build(tmpl string, scheme string, sess string, idx int, mu *peers.Mutator) 
 		return marshal(&base.Request{Method: base.Teardown, URL: u("/stream"), Header: hdr})
 	case "getparam":
 		return marshal(&base.Request{Method: base.GetParameter, URL: u("/stream"), Header: hdr})
+	case "star":
+		// "*" as request URL (legal for OPTIONS; some clients use it for keep-alives), with the
+		// session header of this connection's session if it has one
+		m := []string{"GET_PARAMETER", "OPTIONS", "SET_PARAMETER", "PLAY", "PAUSE", "TEARDOWN", "SETUP", "DESCRIBE"}[mu.Pick("starm", 8)]
+		b := m + " * RTSP/1.0\r\nCSeq: " + fmt.Sprint(idx+1) + "\r\n"
+		if sess != "" {
+			b += "Session: " + sess + "\r\n"
+		}
+		return []byte(b + "\r\n")
 	case "setparam":
 		hdr["Content-Type"] = base.HeaderValue{"text/parameters"}
 		return marshal(&base.Request{Method: base.SetParameter, URL: u("/stream"), Header: hdr, Body: []byte("a: b\r\n")})
